@@ -415,7 +415,14 @@ fn gen_call(t: &mut Tape, m: &Model) -> Call {
     let kind = if m.bvs.len() < 2 { t.below(2) } else { t.weighted(&[2, 4, 2, 8, 2, 2, 2, 1, 1, 4]) as u32 };
     match kind {
         0 => {
-            let name = NAMES[t.below(NAMES.len() as u32) as usize].to_string();
+            // names: from the list, or 1-3 characters over a tiny alphabet (so that `a`, `|a|`, `a `, `"a"`
+            // and the like all occur and meet each other)
+            let name = if t.chance(128) {
+                const ALPHA: [char; 6] = ['a', 'b', '|', ' ', '"', '\\'];
+                (0..1 + t.below(3)).map(|_| ALPHA[t.below(6) as usize]).collect::<String>()
+            } else {
+                NAMES[t.below(NAMES.len() as u32) as usize].to_string()
+            };
             let tpe = match t.below(5) {
                 0 => Type::BV(1),
                 1 => Type::BV(t.range(2, 8)),
